@@ -7,7 +7,7 @@ V_CONTRACT
 m_bst_itr_t *m_bst_itr_new(const m_bst_t *l)
 V_REQUIRES(l != NULL && __CPROVER_same_object(l, &g_sets[0]) && g_bit != NULL && V_RW_OK(g_bit, sizeof(struct _bst_itr)))
 V_ASSIGNS(g_bit->t, g_bit->idx, g_bit->removed)
-V_ENSURES(((const struct _bst *)l)->len == 0 ? V_RET == NULL : (__CPROVER_pointer_equals(V_RET, g_bit) && g_bit->t == (m_bst_t *)l && g_bit->idx == 0 && !g_bit->removed))
+V_ENSURES(((const struct _bst *)l)->len == 0 ? V_RET == NULL : (__CPROVER_pointer_equals(V_RET, g_bit) && __CPROVER_pointer_equals(g_bit->t, (m_bst_t *)l) && g_bit->idx == 0 && !g_bit->removed))
 ;
 V_CONTRACT
 int m_bst_itr_next(m_bst_itr_t **itr)
